@@ -2336,3 +2336,38 @@ def rule_D10(repo: Repo) -> RuleResult:
                     f"isinstance(values, {'/'.join(sorted(accepted))}): they fall through to the single-array branch, np.array_split of "
                     f"ragged chunks raises ValueError - a pyarrow ChunkedArray with more than one chunk cannot be reduced by the group_* kernels")
     return res
+
+
+# ------------------------------------------------------------------------------------------------ U3 (non-skipping running sum propagates nulls)
+
+def rule_U3(repo: Repo) -> RuleResult:
+    """cumsum(skip_na=False): 'a null makes the running sum null from there on'.  For floats NaN + x = NaN does that by itself.
+    Temporal values reach the scan as int64 views whose null is a sentinel (NaT = int64 min): acc + sentinel is an ordinary
+    (wrapped) integer.  So either the non-skipping sum reducer that _apply_cumulative selects (`operation` itself: ScalarFuncs.sum)
+    tests its operands with is_null and hands the null on, or _apply_cumulative treats temporal values with skip_na=False
+    separately."""
+    res = RuleResult("U3", "cumsum(skip_na=False) on temporal values: the null sentinel of the int64 view is propagated, not added")
+    nb = repo.mod("groupby.numba")
+    ac = nb.func("_apply_cumulative")
+    if "_cast_timestamps_to_ints" not in norm(ac.node):
+        res.ok(ac, ac.node, "_apply_cumulative takes no integer views of temporal values", "", nontrivial=False)
+        return res
+    sel = [s for s in walk_no_nested(ac.node) if isinstance(s, ast.Assign) and isinstance(s.value, ast.Call) and norm(s.value.func) == "getattr"
+           and s.value.args and norm(s.value.args[0]) == "ScalarFuncs"]
+    if not sel:
+        raise AnalysisError("U3: _apply_cumulative no longer selects its reducer with getattr(ScalarFuncs, name)")
+    red = nb.functions.get("ScalarFuncs.sum")
+    if red is None:
+        raise AnalysisError("U3: ScalarFuncs.sum (the non-skipping sum reducer) is not found")
+    params = red.named_params
+    tests = [c for c in ast.walk(red.node) if isinstance(c, ast.Call) and (call_name(c) or "").split(".")[-1] == "is_null"
+             and c.args and isinstance(c.args[0], ast.Name) and c.args[0].id in params[:2]]
+    special = [t for t in walk_no_nested(ac.node) if isinstance(t, ast.If) and "skip_na" in norm(t.test) and ("'mM'" in norm(t.test) or "kind" in norm(t.test))]
+    if tests or special:
+        res.ok(red if tests else ac, (tests or special)[0], "non-skipping sum: null operands handled explicitly",
+               "is_null test in the reducer" if tests else "temporal values with skip_na=False treated separately")
+    else:
+        res.bad(red, red.node, "ScalarFuncs.sum: acc + v without a null test",
+                "cumsum(<timedelta>, skip_na=False) adds the NaT sentinel (int64 min) of the integer view like a number: the running sum "
+                "wraps around to a garbage value (about -106751991167300 days) instead of becoming NaT from the null onwards")
+    return res
